@@ -1,6 +1,9 @@
 package main
 
 import (
+	"context"
+	"sync"
+	"os/exec"
 	"encoding/json"
 	"flag"
 	"fmt"
@@ -330,6 +333,31 @@ func cmdCheck(args []string) int {
 		os.WriteFile(filepath.Join(verifRoot, "baseline", id+".txt"), []byte(b.String()), 0o644)
 	}
 
+	// thorough tier: (a) every fourth discharged obligation is proved again by a solver other than the one that proved it;
+	// (b) the must-fail corpus /verif/seeded/<id>/*/patch.diff is replayed on scratch copies: each seeded change has to be reported
+	thoroughExtra = map[string]interface{}{}
+	if *tier == "thorough" && *repo == "/repo" {
+		agree, disagree, open2 := crossCheck(discharged, prelude, filepath.Join(outDir, "vc_cross"), timeout, seed)
+		thoroughExtra["cross_checked"] = agree + disagree + open2
+		thoroughExtra["cross_agree"] = agree
+		thoroughExtra["cross_undecided_by_second_solver"] = open2
+		thoroughExtra["cross_disagree"] = disagree
+		if disagree > 0 {
+			fmt.Printf("ENGINE-ERROR: %d obligation(s) proved by one solver are refuted by another\n", disagree)
+			if rc == 0 {
+				rc = 2
+			}
+		}
+		st := selfTest(id)
+		thoroughExtra["selftest"] = st
+		det := 0
+		for _, x := range st {
+			if x["detected"] == true {
+				det++
+			}
+		}
+		fmt.Printf("SELFTEST %s: %d of %d seeded changes reported\n", id, det, len(st))
+	}
 	wall := time.Since(start).Seconds()
 	if !*noEvidence {
 		writeEvidence(e, p, *tier, seed, units, reports, discharged, failed, undecided, missing, knownHit, deadReturns, violations, wall, float64(solverMs)/1000, outDir)
@@ -378,7 +406,8 @@ func writeEvidence(e *Engine, p *PropDef, tier string, seed int, units []*Unit, 
 		und = append(und, j.obl.Name)
 	}
 	cov := map[string]interface{}{
-		"obligations":              len(reports) - len(undecided),
+		// claimed obligations: discharged ones plus unexplained failures (known findings and undecided ones are listed apart)
+		"obligations":              len(discharged) + violations,
 		"discharged":               len(discharged),
 		"checker_cmd":              fmt.Sprintf("bin/wv check %s --tier %s", p.ID, tier),
 		"trusted_base":             trusted,
@@ -393,6 +422,9 @@ func writeEvidence(e *Engine, p *PropDef, tier string, seed int, units []*Unit, 
 		"samples":                  samples,
 		"vc_dir":                   filepath.Join(outDir, "vc"),
 		"contract_files":           e.contractFiles,
+	}
+	for k, v := range thoroughExtra {
+		cov[k] = v
 	}
 	ev := map[string]interface{}{
 		"property_id": p.ID, "tier": tier, "seed": seed, "level": "proof", "coverage": cov,
@@ -411,3 +443,121 @@ func maxInt(a, b int) int {
 }
 
 func (e *Engine) lemmaJobs(names []string) []*job { return nil }
+
+var thoroughExtra map[string]interface{}
+
+// crossCheck proves every fourth discharged obligation again with the solvers that did not prove it.
+func crossCheck(discharged []*job, prelude, dir string, timeoutS, seed int) (agree, disagree, open2 int) {
+	os.MkdirAll(dir, 0o755)
+	sv := availableSolvers()
+	type res struct{ st string }
+	var mu sync.Mutex
+	var wg sync.WaitGroup
+	sem := make(chan struct{}, runtime.NumCPU())
+	for i, j := range discharged {
+		if i%4 != 0 || j.split > 0 {
+			continue
+		}
+		var others []solverSpec
+		for _, s := range sv {
+			if s.name != j.res.Solver {
+				others = append(others, s)
+			}
+		}
+		if len(others) == 0 {
+			continue
+		}
+		wg.Add(1)
+		sem <- struct{}{}
+		go func(j *job, others []solverSpec) {
+			defer wg.Done()
+			defer func() { <-sem }()
+			file := filepath.Join(dir, sanitize(j.obl.Name)+".smt2")
+			os.WriteFile(file, []byte(j.un.Query(j.obl, prelude, nil)), 0o644)
+			st := "unknown"
+			for _, s := range others {
+				r := runSolver(context.Background(), s, file, timeoutS/3+2, seed)
+				if r.Status == "unsat" {
+					st = "unsat"
+					break
+				}
+				if r.Status == "sat" {
+					st = "sat"
+					fmt.Printf("SOLVER-DISAGREEMENT: %s proved by %s, refuted by %s\n", j.obl.Name, j.res.Solver, s.name)
+					break
+				}
+			}
+			mu.Lock()
+			switch st {
+			case "unsat":
+				agree++
+			case "sat":
+				disagree++
+			default:
+				open2++
+			}
+			mu.Unlock()
+		}(j, others)
+	}
+	wg.Wait()
+	return
+}
+
+// selfTest replays the seeded changes of a property on scratch copies of /repo (under the system temp dir, removed afterwards).
+func selfTest(id string) []map[string]interface{} {
+	var out []map[string]interface{}
+	dirs, _ := filepath.Glob(filepath.Join(verifRoot, "seeded", id, "*", "patch.diff"))
+	sort.Strings(dirs)
+	exe, _ := os.Executable()
+	for _, pd := range dirs {
+		rec := map[string]interface{}{"mutant": filepath.Dir(pd)}
+		tmp, err := os.MkdirTemp("", "wv_selftest_")
+		if err != nil {
+			rec["error"] = err.Error()
+			out = append(out, rec)
+			continue
+		}
+		func() {
+			defer os.RemoveAll(tmp)
+			if b, err := exec.Command("rsync", "-a", "--exclude", ".git", "/repo/", tmp+"/").CombinedOutput(); err != nil {
+				rec["error"] = "copy: " + trunc(string(b), 200)
+				return
+			}
+			ap := exec.Command("git", "apply", "--whitespace=nowarn", "--unsafe-paths", "--directory="+tmp, pd)
+			ap.Dir = "/"
+			if b, err := ap.CombinedOutput(); err != nil {
+				// fall back to patch(1)-like application inside the copy
+				ap2 := exec.Command("sh", "-c", "cd "+tmp+" && git init -q . && git apply --whitespace=nowarn "+pd)
+				if b2, err2 := ap2.CombinedOutput(); err2 != nil {
+					rec["error"] = "patch does not apply: " + trunc(string(b)+string(b2), 300)
+					return
+				}
+			}
+			bc := exec.Command("go", "build", "./...")
+			bc.Dir = tmp
+			bc.Env = append(os.Environ(), "GOFLAGS=-mod=mod", "GOPROXY=off", "GOSUMDB=off", "GOTOOLCHAIN=local")
+			if b, err := bc.CombinedOutput(); err != nil {
+				rec["error"] = "does not compile: " + trunc(string(b), 300)
+				return
+			}
+			c := exec.Command(exe, "check", id, "--repo", tmp, "--no-evidence", "--tier", "quick")
+			c.Env = append(os.Environ(), "VERIF_TIER=quick")
+			b, _ := c.CombinedOutput()
+			txt := strings.ReplaceAll(string(b), tmp, "/repo")
+			var obls []string
+			lines := strings.Split(txt, "\n")
+			for i, l := range lines {
+				if strings.HasPrefix(l, "VIOLATION") && i+1 < len(lines) {
+					obls = append(obls, trunc(strings.TrimSpace(lines[i+1]), 160))
+				}
+			}
+			rec["detected"] = len(obls) > 0
+			if len(obls) > 5 {
+				obls = obls[:5]
+			}
+			rec["failed_obligations"] = obls
+		}()
+		out = append(out, rec)
+	}
+	return out
+}
